@@ -109,7 +109,16 @@ pub fn subtype_ops(shapes: &[JsonShape], out: &mut Vec<String>) {
                 for i in 0..=elements.len().min(3) {
                     out.push(format!("sub\ttup\t{t}\t{}\t{}\t{i}", sx(s), hx("")));
                 }
+            } else {
+                out.push(format!("sub\ttup\t{t}\t{}\t{}\t0", sx(s), hx("")));
             }
+            if !matches!(s, JsonShape::Object { .. }) {
+                out.push(format!("sub\tobj\t{t}\t{}\t{}\t0", sx(s), hx("a")));
+            }
+        }
+        if !matches!(s, JsonShape::Tuple { .. }) {
+            out.push(format!("tupof\t{}", sx(s)));
+            out.push(format!("tupof\t{}\tN", sx(s)));
         }
         if let JsonShape::Tuple { elements, .. } = s {
             let same: Vec<String> = elements.iter().map(sx).collect();
